@@ -312,12 +312,18 @@ func TestVerif_C19_Interleavings(t *testing.T) {
 		orders := interleavings(n)
 		for _, initial := range []string{"empty", "entry-of-call-0", "entry-of-other-content"} {
 			for oi, order := range orders {
-				id := fmt.Sprintf("c19-il-n%d-%s-%d", n, initial, oi)
-				if !sim.WantCase(id) {
-					continue
+				// the server says "unchanged" with 304, or with 412 (both are accepted answers)
+				for _, nm := range []int{304, 412} {
+					id := fmt.Sprintf("c19-il-n%d-%s-%d", n, initial, oi)
+					if nm != 304 {
+						id += fmt.Sprintf("-%d", nm)
+					}
+					if !sim.WantCase(id) {
+						continue
+					}
+					rep.Begin("C19", id)
+					runC19Interleaving(rep, id, n, initial, order, nm)
 				}
-				rep.Begin("C19", id)
-				runC19Interleaving(rep, id, n, initial, order)
 			}
 		}
 		rep.Note("C19", fmt.Sprintf("%d concurrent calls: %d interleavings x 3 initial cache states executed", n, len(orders)))
@@ -326,7 +332,7 @@ func TestVerif_C19_Interleavings(t *testing.T) {
 
 func etagOf(content string) string { return `"etag-` + content + `"` }
 
-func runC19Interleaving(rep *sim.Reporter, id string, n int, initial string, order []ilEvent) {
+func runC19Interleaving(rep *sim.Reporter, id string, n int, initial string, order []ilEvent, notModified int) {
 	etag := &webhookExecutorEtag{etagCache: cache.New[eTagKey, *eTagEntry](0, 0)}
 	contents := []string{"c0", "c1", "c2"}[:n]
 	key := etag.getKeyFromObject(request("p", "x").Parent)
@@ -359,7 +365,7 @@ func runC19Interleaving(rep *sim.Reporter, id string, n int, initial string, ord
 		close(arrived[idx])
 		<-release[idx]
 		if inm == etagOf(contents[idx]) {
-			return httpResp(304, map[string]string{"ETag": etagOf(contents[idx])}, ""), nil
+			return httpResp(notModified, map[string]string{"ETag": etagOf(contents[idx])}, ""), nil
 		}
 		return httpResp(200, map[string]string{"ETag": etagOf(contents[idx])}, bodyFor(contents[idx])), nil
 	}
@@ -410,11 +416,11 @@ func runC19Interleaving(rep *sim.Reporter, id string, n int, initial string, ord
 			continue // an error is always acceptable
 		}
 		if got := servedFor(&resps[i]); got != contents[i] {
-			rep.Violation("C19", id, "body-of-another-call", fmt.Sprintf("call %d (request content %s) succeeded with the body the server produced for %q: a 304 was answered from a cache entry that a concurrent call had replaced", i, contents[i], got),
-				map[string]interface{}{"order": desc, "initialCache": initial, "calls": n})
+			rep.Violation("C19", id, fmt.Sprintf("body-of-another-call:%d", notModified), fmt.Sprintf("call %d (request content %s) succeeded with the body the server produced for %q: a %d was answered from a cache entry that a concurrent call had replaced", i, contents[i], got, notModified),
+				map[string]interface{}{"order": desc, "initialCache": initial, "calls": n, "notModifiedStatus": notModified})
 		}
 	}
-	rep.Case("C19", id, true, fmt.Sprintf("il/n%d/%s/%s", n, initial, strings.Join(desc, "")), map[string]interface{}{"order": desc, "initialCache": initial})
+	rep.Case("C19", id, true, fmt.Sprintf("il/n%d/%s/%s/%d", n, initial, strings.Join(desc, ""), notModified), map[string]interface{}{"order": desc, "initialCache": initial, "notModifiedStatus": notModified})
 }
 
 // ---------------------------------------------------------------------------------------------
